@@ -518,9 +518,41 @@ class CompGen:
           return None
         stmts.append(["assign", path, e])
       own_driven.append((path, t))
+      # whole target first, then one piece of it (one or two levels down) again in the same block:
+      # the block is the writer of the whole AND of the piece (writer bookkeeping of nets that tap a
+      # sibling piece must still find the whole-signal writer)
+      if not P["translatable"] and path[-1][0] in ("a", "i") and c.random() < P.get("p_override", 0.15):
+        pc = self.sub_piece(path, t)
+        if pc is not None:
+          stmts.append(["assign", pc[0], self.expr(pc[1], 2, env)])
     name = "up%d" % self.nblk
     self.nblk += 1
     return {"k": "comb", "name": name, "stmts": stmts}
+
+  def sub_piece(self, path, t, depth=0):
+    """-> (path, width) of a Bits piece strictly inside the target, or None"""
+    c, spec = self.c, self.spec
+    if isinstance(t, int):
+      if t < 2:
+        return None
+      lo = c.randint(0, t - 1)
+      hi = c.randint(lo + 1, t) if not (lo == 0) else c.randint(1, t - 1)
+      if hi - lo == 1 and c.random() < 0.5:
+        return path + [["b", lo]], 1
+      return path + [["s", lo, hi]], hi - lo
+    if isinstance(t, str):
+      fname, ft, flo, fw = c.choice(field_layout(spec, t))
+      fp = path + [["a", fname]]
+      if isinstance(ft, list):
+        fp = fp + [["i", c.randrange(ft[2])]]
+        ft = ft[1]
+      if isinstance(ft, int):
+        if ft >= 2 and c.random() < 0.6:
+          return self.sub_piece(fp, ft, depth + 1)
+        return fp, ft
+      if depth < 2:
+        return self.sub_piece(fp, ft, depth + 1)
+    return None
 
   def gen_for_block(self, path, t):
     """whole Bits target written bit by bit / decoder-style in a loop."""
